@@ -75,6 +75,13 @@ class Acc:
         self.distinct, self.nontrivial = set(), set()
         self.samples, self.panic_samples = [], []
         self.stats = []
+        self.deref_rows = 0
+        self.deref_hist, self.deref_verdicts, self.deref_why = {}, {}, {}
+        self.focus_found = []
+        self.unit_total, self.unit_classes = collections.Counter(), collections.Counter()
+        self.unit_panics_predicted, self.unit_judge_fail = collections.Counter(), collections.Counter()
+        self.unit_agree = self.unit_diffs = 0
+        self.unit_distinct = set()
 
 
 def process(ctx, acc, lines):
@@ -205,21 +212,176 @@ def process(ctx, acc, lines):
                                         "how": "save the 'replay' object to a file and run harness/cmd/c05 -replay <file>"})
 
 
+# real function (suffix of the harness site token) + panic kind -> mirrored implicit site of lean/NGF/Model/NilGuards.lean
+UNIT_SITES = [
+    (r"graph\.validateFilter(Redirect|Rewrite)$", "nil pointer", "pathmod-body"),
+    (r"dataplane\.convertHTTP(RequestRedirect|URLRewrite|Header)Filter$", "nil pointer", "convert-filter-body"),
+    (r"dataplane\.convertPathModifier$", "nil pointer", "convert-pathmod-body"),
+    (r"createHTTPSListenerValidator\.func\d+$", "nil pointer", "tls-mode"),
+    (r"createExternalReferencesForTLSSecretsResolver\.func\d+$", "nil pointer", "tls-resolve-nil"),
+    (r"createExternalReferencesForTLSSecretsResolver\.func\d+$", "index out of range", "tls-cert-index"),
+    (r"dataplane\.buildServers$", "nil map", "proto-map-write"),
+    (r"graph\.getIPFamilyAndPortFromRef$", "nil pointer", "backend-port"),
+    (r"graph\.processBackendTLSPolicies$", "index out of range", "btp-ca-index"),
+    (r"graph\.validateBackendTLSCACertRef$", "index out of range", "btp-ca-validate-index"),
+    (r"graph\.validateBackendTLSWellKnownCACerts$", "nil pointer", "btp-wellknown"),
+]
+
+
+def unit_site(func, msg):
+    for rx, frag, name in UNIT_SITES:
+        if re.search(rx, func) and frag in msg:
+            return name
+    return None
+
+
+def process_units(ctx, acc, lines):
+    """Unit streams: the REAL functions of the mirrored nil-guard sites on generated shapes (admissible and
+    CEL-bypassing) vs. the Lean mirrors; the Lean judge evaluates the property on the real outputs of the
+    admissible shapes (no panic; unsupported values are reported)."""
+    U, R, P = [], [], []
+    for l in lines:
+        if not l.startswith("U "):
+            continue
+        parts = l.split("\t")
+        U.append(parts[0][2:])
+        R.append(next((x[2:] for x in parts[1:] if x.startswith("R ")), ""))
+        P.append(next((x[2:] for x in parts[1:] if x.startswith("P ")), ""))
+    if not U:
+        return
+    outs = ctx.driver("unit", U)
+    vers = ctx.driver("ujudge", [u + " " + r for u, r in zip(U, R)])
+    for u, r, pmsg, o, ver in zip(U, R, P, outs, vers):
+        ku, kr = parse_kv(u), parse_kv(r)
+        kind = ku.get("k", "?")
+        acc.unit_total[kind] += 1
+        acc.unit_distinct.add(u)
+        if o == "bad-op" or ver == "bad-op":
+            acc.unit_diffs += 1
+            if acc.unit_diffs <= 3:
+                ctx.broken(f"Lean driver cannot decode the unit shape: {u}", replay={"shape": u})
+            continue
+        ko = parse_kv(o)
+        acc.unit_classes[f"{kind} adm={ko['adm']} uns={ko['uns']} real={kr.get('rout')}"] += 1
+        func = kr.get("rsite", "-").split("@")[-1]
+        ok = True
+        why = ""
+        if kr.get("rout") != ko["out"]:
+            ok, why = False, "panic / no panic"
+        elif kr.get("rout") == "panic":
+            m = unit_site(func, pmsg)
+            if m != ko["site"]:
+                ok, why = False, f"site (real {func}: {pmsg!r} = {m}, model {ko['site']})"
+            else:
+                acc.unit_panics_predicted[ko["site"]] += 1
+        else:
+            if kind == "pathmatch":
+                if int(kr["rrep"]) != int(ko["rep"]):
+                    ok, why = False, "number of errors"
+            elif (int(kr["rrep"]) > 0) != (int(ko["rep"]) > 0):
+                ok, why = False, "reported / not reported"
+            if ok and ko["valid"] != "-" and kr.get("rvalid") != ko["valid"]:
+                ok, why = False, "validity flag"
+        if ku.get("adm") == "1" and ko["adm"] != "1":
+            ok, why = False, "the generator claims the shape admissible, the Lean CEL predicate does not"
+        if ok:
+            acc.unit_agree += 1
+        else:
+            acc.unit_diffs += 1
+            if acc.unit_diffs <= 3:
+                ctx.log(f"unit stream {kind}: real vs Lean mirror disagree on {why}: {u} | {r} | {o}")
+                ctx.broken(f"unit stream {kind}: the real function and the Lean mirror disagree on {why}",
+                           replay={"shape": u, "real": r, "panic": pmsg, "model": o})
+        if ver != "ok":
+            if "panic" in ver:
+                sig = signature(func, pmsg, [], [], kr.get("rsite", "-").split("@")[0])
+                what = f"the real {func} panics on an admissible {kind} shape: {pmsg}"
+            else:
+                sig = f"C05:unreported:{kind}-{ku.get('t') or ku.get('p') or ku.get('pt') or 'shape'}"
+                what = f"an admissible but unsupported {kind} value is accepted silently (no error / condition)"
+            acc.sigs[sig] += 1
+            acc.unit_judge_fail[sig] += 1
+            if acc.sigs[sig] == 1:
+                ctx.finding(sig, what, {"shape": u, "real": r, "panic": pmsg, "model": o, "verdict": ver,
+                                        "how": "harness/cmd/c05 -unit -seed <seed> -n <n> prints this shape; the U line is the "
+                                               "input of `ngfdriver_C05 unit` / `ujudge`"})
+
+
+def lean_str(x):
+    return json.dumps(x, ensure_ascii=False)
+
+
+def deref_inventory(ctx, acc):
+    """The regenerated inventory of implicit panic sites (facts) is decided row by row by the Lean driver — the same
+    `siteOk` that `every_deref_guarded_or_justified` is stated about.  Returns the `file:func` focus list of the rows
+    that are neither guarded nor justified (a removed nil check, a new unguarded use, a caller that stopped checking)."""
+    rows = ctx.facts.get("PanicSites.derefSites") or []
+    acc.deref_rows = len(rows)
+    acc.deref_hist = ctx.facts.get("PanicSites.derefHistogram") or {}
+    if not rows:
+        ctx.broken("the inventory of implicit panic sites is empty (translator could not type-check the packages)",
+                   detail="\n".join(getattr(ctx, "translator_errors", [])[:5]))
+        return []
+    lines = ["\t".join([str(r["id"]), r["file"], r["func"], r["class"], r["expr"], r["guardKind"], r["guard"], str(r["n"])])
+             for r in rows]
+    outs = ctx.driver("deref", lines)
+    acc.deref_verdicts = collections.Counter(o.split(" ")[0] for o in outs)
+    acc.deref_why = collections.Counter(o.split(" ", 1)[1] for o in outs if o.startswith("justified "))
+    focus = []
+    for r, o in zip(rows, outs):
+        if o == "UNJUSTIFIED":
+            row = (f'⟨⟨{r["id"]}, {lean_str(r["file"])}, {lean_str(r["func"])}, {lean_str(r["class"])}, {lean_str(r["expr"])},\n'
+                   f'     {lean_str(r["guardKind"])}, {lean_str(r["guard"])}, {r["n"]}⟩,\n    .<why>, "<reason>"⟩')
+            ctx.broken(f'implicit panic site without guard or justification: {r["class"]} `{r["expr"]}` in {r["func"]} '
+                       f'({r["file"]}; guard found: {r["guardKind"]} {r["guard"]!r}; {r["n"]} use(s))',
+                       detail="if the site cannot fire for admissible objects, add to `justified` in "
+                              "lean/NGF/Model/DerefSites.lean:\n" + row,
+                       replay={"row": r})
+            ctx.log(f'deref inventory: UNJUSTIFIED {r["class"]} `{r["expr"]}` in {r["func"]} ({os.path.basename(r["file"])}; '
+                    f'guard {r["guardKind"]} {r["guard"]!r}, {r["n"]} use(s))')
+            f = os.path.basename(r["file"]) + ":" + r["func"]
+            if f not in focus:
+                focus.append(f)
+        elif o in ("justified-text-differs", "bad-op"):
+            ctx.broken(f'the justification row with id {r["id"]} does not spell the inventory row it claims to justify '
+                       f'({r["func"]}: {r["expr"]}) — {o}', replay={"row": r})
+    return focus
+
+
 def run(ctx):
+    import time
+    t0 = time.time()
+    phases = {}
+
+    def lap(name):
+        nonlocal t0
+        phases[name] = round(time.time() - t0, 1)
+        t0 = time.time()
     ctx.prepare()
+    lap("prepare")
     ctx.obligations("NGF.Props.C05")
+    ctx.obligations("NGF.Props.C05Deref")
+    ctx.obligations("NGF.Props.C05Guards")
+    lap("obligations")
     if ctx.tier == "thorough":
         ctx.leanchecker("NGF.Props.C05")
+        ctx.leanchecker("NGF.Props.C05Deref")
+        ctx.leanchecker("NGF.Props.C05Guards")
 
     acc = Acc()
+    focus = deref_inventory(ctx, acc)
+    process_units(ctx, acc, ctx.harness(["-unit", "-seed", ctx.seed, "-n", 1500 if ctx.tier == "quick" else 20000]) or [])
+    lap("deref+units")
     cdir = os.path.join(os.path.dirname(os.path.dirname(os.path.abspath(__file__))), "corpus", "C05")
     corpus = sorted(os.path.join(cdir, f) for f in os.listdir(cdir)) if os.path.isdir(cdir) else []
     if corpus:
         process(ctx, acc, ctx.harness(["-replay", ",".join(corpus)]) or [])
     corpus_steps = acc.steps
+    lap("corpus")
     # exhaustive small scope: all 120 delivery orders of the selector scenario x batchings x route kinds
     process(ctx, acc, ctx.harness(["-perms"]) or [])
     perm_steps = acc.steps - corpus_steps
+    lap("perms")
     if ctx.tier == "quick":
         chunks = [(ctx.seed, 1500)]
     else:
@@ -228,6 +390,19 @@ def run(ctx):
         process(ctx, acc, ctx.harness(["-seed", seed, "-n", n]) or [])
         if len(acc.sigs) > 12:
             break           # a broken tree: enough evidence
+    lap("generated")
+    # a row of the deref inventory is neither guarded nor justified: SEARCH for a crashing admissible input, with the
+    # generator focused on the objects / fields that reach the functions the rows name
+    focus_steps = 0
+    if focus and len(acc.sigs) <= 12:
+        before = acc.steps
+        sigs_before = set(acc.sigs)
+        for k, chunk in enumerate([focus[i:i + 3] for i in range(0, min(len(focus), 9), 3)]):
+            n = 1200 if ctx.tier == "quick" else 6000
+            process(ctx, acc, ctx.harness(["-seed", ctx.seed * 7919 + k, "-n", n, "-focus", ",".join(chunk)]) or [])
+        focus_steps = acc.steps - before
+        acc.focus_found = sorted(set(acc.sigs) - sigs_before)
+        ctx.log(f"deref inventory: focused search on {focus[:9]}: {focus_steps} steps, new signatures {acc.focus_found}")
     if not getattr(ctx, "harness_ok", False):
         ctx.broken("harness does not build against the current tree", detail="\n".join(ctx.build_errors))
     elif getattr(ctx, "harness_rc", 0) != 0:
@@ -254,12 +429,27 @@ def run(ctx):
                 "of the real intermediate data (event kinds excluded); non-trivial = the step got at least two of {route "
                 "attached, server generated, upstream generated} or reached a mirrored panic site",
         "samples": acc.samples[:2] + acc.panic_samples[:2],
-        "traces_validated_against_impl": acc.agree_ok + acc.agree_panic,
+        "traces_validated_against_impl": acc.agree_ok + acc.agree_panic + acc.unit_agree,
         "correspondence_diffs": acc.diffs,
         "mirrored_panics_predicted": acc.agree_panic,
         "unmirrored_panics": dict(acc.unmirrored),
         "cases": int(sum(v for k, v in tags.items() if k.startswith("profile-"))),
         "corpus_steps": corpus_steps,
+        "phase_seconds": phases,
+        "unit_shapes": dict(acc.unit_total),
+        "unit_distinct_shapes": len(acc.unit_distinct),
+        "unit_agreements": acc.unit_agree,
+        "unit_diffs": acc.unit_diffs,
+        "unit_classes": dict(acc.unit_classes),
+        "unit_panics_predicted_by_site": dict(acc.unit_panics_predicted),
+        "unit_judge_failures": dict(acc.unit_judge_fail),
+        "deref_inventory_rows": acc.deref_rows,
+        "deref_inventory_uses_by_class_and_guard": acc.deref_hist,
+        "deref_inventory_verdicts": dict(acc.deref_verdicts),
+        "deref_inventory_justified_by": dict(acc.deref_why),
+        "deref_focus_functions": focus,
+        "deref_focus_steps": focus_steps,
+        "deref_focus_new_signatures": acc.focus_found,
         "exhaustive_permutation_steps": perm_steps,
         "distinct_views": len(acc.distinct),
         "outcomes": dict(acc.outcomes),
